@@ -1419,6 +1419,25 @@ def tail_returns(fn):
             return tailpos(x["v"])
         if k == "blk" and x.get("lbl") is None and isinstance(x.get("b"), dict):
             b = x["b"]
+            # `if c { return V; }  rest..`  at the end of the function  ->  `if c { V } else { rest.. }`   (an early-return guard is the first branch)
+            for i_, s_ in enumerate(b["stmts"]):
+                if (isinstance(s_, dict) and s_.get("k") == "if" and s_.get("el") is None and isinstance(s_.get("th"), dict) and s_["th"].get("k") == "blk"
+                        and s_["th"].get("lbl") is None):
+                    tb = s_["th"]["b"]
+                    items_ = list(tb["stmts"]) + ([tb["tail"]] if tb.get("tail") is not None else [])
+                    if items_ and isinstance(items_[-1], dict) and items_[-1].get("k") == "ret" and items_[-1].get("v") is not None \
+                            and not any(y.get("k") == "ret" for z in items_[:-1] for y in _walk(z)):
+                        rest_ = b["stmts"][i_ + 1:]
+                        tail_ = b.get("tail")
+                        if tail_ is None and not rest_:
+                            continue
+                        tb["stmts"] = items_[:-1]
+                        tb["tail"] = items_[-1]["v"]
+                        s_["el"] = {"k": "blk", "b": {"k": "block", "stmts": rest_, "tail": tail_}, "line": s_.get("line")}
+                        b["stmts"] = b["stmts"][:i_]
+                        b["tail"] = s_
+                        n += 1
+                        break
             if b.get("tail") is not None:
                 b["tail"] = tailpos(b["tail"])
             elif b["stmts"] and isinstance(b["stmts"][-1], dict) and b["stmts"][-1].get("k") == "ret" and b["stmts"][-1].get("v") is not None:
@@ -1872,6 +1891,20 @@ def range_map_collect_to_push(fn, types):
     return n
 
 
+def _div_stmt(els):
+    """the single `continue` / `break` / `return` (without value) that a block consists of, else None"""
+    e = els
+    while e is not None and ((e.get("k") == "blk" and e.get("lbl") is None and len(e["b"]["stmts"]) + (1 if e["b"].get("tail") is not None else 0) == 1)
+                             or (e.get("k") == "block" and len(e["stmts"]) + (1 if e.get("tail") is not None else 0) == 1)):
+        if e.get("k") == "blk":
+            e = e["b"]["stmts"][0] if e["b"]["stmts"] else e["b"]["tail"]
+        else:
+            e = e["stmts"][0] if e["stmts"] else e["tail"]
+    if e is not None and e.get("k") in ("continue", "break", "ret") and e.get("v") is None:
+        return e
+    return None
+
+
 def option_case_of_case(fn):
     """D19  matching on an Option that was itself produced by matching on an Option:
         if let Some(P) = (match e { Some(Q) => B, None => None }) { T }      ->   if let Some(Q) = e { if let Some(P) = B { T } }
@@ -1896,8 +1929,12 @@ def option_case_of_case(fn):
         nonlocal n
         c = _unblk(iff["c"])
         sp = is_some_pat(c["pat"])
-        if sp is None or iff.get("el") is not None:
+        if sp is None:
             return None
+        els = iff.get("el")
+        if els is not None and _div_stmt(els) is None:
+            return None
+        mk_el = (lambda: copy.deepcopy(els)) if els is not None else (lambda: None)
         init = _unblk(c["init"])
         if init is None:
             return None
@@ -1910,16 +1947,16 @@ def option_case_of_case(fn):
             return {"k": "blk", "b": {"k": "block", "stmts": [let] + list(inner["stmts"]), "tail": inner.get("tail")}, "line": line, "from_case_of_case": True}
         if init.get("k") == "path" and str(init.get("def", "")).endswith("::None"):
             n += 1
-            return {"k": "tup", "xs": [], "line": line}
+            return mk_el() if els is not None else {"k": "tup", "xs": [], "line": line}
         if init.get("k") == "if" and init.get("el") is not None and _unblk(init["c"]) is not None and _unblk(init["c"]).get("k") != "letx":
             th_, el_ = _unblk(init["th"]), _unblk(init["el"])
             if (th_ is not None and th_.get("k") == "call" and str(th_.get("callee", "")).endswith("::Some") and len(th_["args"]) == 1
                     and el_ is not None and el_.get("k") == "path" and str(el_.get("def", "")).endswith("::None")):
                 # if let Some(P) = (if c { Some(v) } else { None }) { T }   ->   if c { let P = v; T }
                 n += 1
-                inner_if = {"k": "if", "c": {"k": "letx", "pat": c["pat"], "init": th_, "line": line}, "th": iff["th"], "el": None, "line": line}
+                inner_if = {"k": "if", "c": {"k": "letx", "pat": c["pat"], "init": th_, "line": line}, "th": iff["th"], "el": mk_el(), "line": line}
                 inner_r = simplify(inner_if) or inner_if
-                return {"k": "if", "c": init["c"], "th": {"k": "blk", "b": {"k": "block", "stmts": [inner_r], "tail": None}, "line": line}, "el": None, "line": line, "from_case_of_case": True}
+                return {"k": "if", "c": init["c"], "th": {"k": "blk", "b": {"k": "block", "stmts": [inner_r], "tail": None}, "line": line}, "el": mk_el(), "line": line, "from_case_of_case": True}
         if init.get("k") == "match" and len(init["arms"]) == 2 and all(a.get("guard") is None for a in init["arms"]):
             some = [a for a in init["arms"] if is_some_pat(a["pat"]) is not None]
             none = [a for a in init["arms"] if is_none_pat(a["pat"])]
@@ -1927,13 +1964,14 @@ def option_case_of_case(fn):
                 nb = _unblk(none[0]["body"])
                 if nb is not None and nb.get("k") == "path" and str(nb.get("def", "")).endswith("::None"):
                     n += 1
-                    inner_if = {"k": "if", "c": {"k": "letx", "pat": c["pat"], "init": some[0]["body"], "line": line}, "th": iff["th"], "el": None, "line": line}
+                    inner_if = {"k": "if", "c": {"k": "letx", "pat": c["pat"], "init": some[0]["body"], "line": line}, "th": iff["th"], "el": mk_el(), "line": line}
                     inner_r = simplify(inner_if) or inner_if
                     return {"k": "if", "c": {"k": "letx", "pat": some[0]["pat"], "init": init["scrut"], "line": line},
-                            "th": {"k": "blk", "b": {"k": "block", "stmts": [inner_r], "tail": None}, "line": line}, "el": None, "line": line, "from_case_of_case": True}
+                            "th": {"k": "blk", "b": {"k": "block", "stmts": [inner_r], "tail": None}, "line": line}, "el": mk_el(), "line": line, "from_case_of_case": True}
         return None
 
     def rewrite(x):
+        nonlocal n
         if isinstance(x, list):
             return [rewrite(v) for v in x]
         if not isinstance(x, dict):
@@ -1942,6 +1980,24 @@ def option_case_of_case(fn):
             if isinstance(v, (dict, list)):
                 x[k_] = rewrite(v)
         if x.get("k") == "block":
+            for i_, s_ in enumerate(list(x["stmts"]) + ([x["tail"]] if x.get("tail") is not None else [])):
+                if (isinstance(s_, dict) and s_.get("k") == "match" and not s_.get("mac") and len(s_["arms"]) == 2 and all(a.get("guard") is None for a in s_["arms"])
+                        and is_some_pat(s_["arms"][0]["pat"]) is not None and is_none_pat(s_["arms"][1]["pat"]) and _div_stmt(s_["arms"][1]["body"]) is not None):
+                    sc_ = _unblk(s_["scrut"])
+                    prev = x["stmts"][i_ - 1] if 0 < i_ <= len(x["stmts"]) else None
+                    bound = (sc_ is not None and sc_.get("k") == "local" and prev is not None and prev.get("k") == "let" and prev["pat"].get("k") == "bind"
+                             and prev["pat"]["hid"] == sc_["hid"] and prev.get("init") is not None and _unblk(prev["init"]).get("k") in ("match", "if"))
+                    if (sc_ is not None and sc_.get("k") in ("match", "if")) or bound:
+                        th_ = s_["arms"][0]["body"]
+                        th_ = th_ if th_.get("k") == "blk" else {"k": "blk", "b": {"k": "block", "stmts": [th_], "tail": None} if th_.get("k") in ("assign", "assignop", "if", "for", "match", "continue", "break") else {"k": "block", "stmts": [], "tail": th_}, "line": th_.get("line")}
+                        el_ = s_["arms"][1]["body"]
+                        el_ = el_ if el_.get("k") == "blk" else {"k": "blk", "b": {"k": "block", "stmts": [el_], "tail": None}, "line": el_.get("line")}
+                        new_ = {"k": "if", "c": {"k": "letx", "pat": s_["arms"][0]["pat"], "init": s_["scrut"], "line": s_.get("line")}, "th": th_, "el": el_, "line": s_.get("line"), "from_match_stmt": True}
+                        if i_ < len(x["stmts"]):
+                            x["stmts"][i_] = new_
+                        else:
+                            x["tail"] = new_
+                        n += 1
             # `let t = <option match>; if let Some(P) = t { .. }` with t used nowhere else
             i = 0
             while i + 1 < len(x["stmts"]) + (1 if x.get("tail") is not None else 0):
@@ -1949,12 +2005,12 @@ def option_case_of_case(fn):
                 nxt = x["stmts"][i + 1] if i + 1 < len(x["stmts"]) else x.get("tail")
                 if (s is not None and s.get("k") == "let" and s["pat"].get("k") == "bind" and not s.get("els") and "Mut)" not in str(s["pat"].get("mode"))
                         and s.get("init") is not None and _unblk(s["init"]).get("k") == "match" and nxt is not None and nxt.get("k") == "if"
-                        and _unblk(nxt["c"]) is not None and _unblk(nxt["c"]).get("k") == "letx" and nxt.get("el") is None):
+                        and _unblk(nxt["c"]) is not None and _unblk(nxt["c"]).get("k") == "letx" and (nxt.get("el") is None or _div_stmt(nxt["el"]) is not None)):
                     cn = _unblk(nxt["c"])
                     ci = _unblk(cn["init"])
                     hid = s["pat"]["hid"]
                     rest = (x["stmts"][i + 2:] if i + 1 < len(x["stmts"]) else []) + ([x["tail"]] if (x.get("tail") is not None and nxt is not x.get("tail")) else [])
-                    if (ci is not None and ci.get("k") == "local" and ci["hid"] == hid and not _mentions(nxt["th"], hid) and not any(_mentions(r_, hid) for r_ in rest)
+                    if (ci is not None and ci.get("k") == "local" and ci["hid"] == hid and not _mentions(nxt["th"], hid) and not (nxt.get("el") is not None and _mentions(nxt["el"], hid)) and not any(_mentions(r_, hid) for r_ in rest)
                             and is_some_pat(cn["pat"]) is not None):
                         cn["init"] = s["init"]
                         del x["stmts"][i]
